@@ -65,6 +65,15 @@ _ONE = z3.RealVal(1)
 _ZERO = z3.RealVal(0)
 
 
+def _as_inf(o):
+    """+-inf as a plain float (IEEE semantics are applied by the callers), else None."""
+    if isinstance(o, np.ndarray) and o.ndim == 0:
+        o = o.item()
+    if isinstance(o, (float, np.floating)) and math.isinf(float(o)):
+        return float(o)
+    return None
+
+
 def _mul(a, b):
     if a is _ONE or (z3.is_rational_value(a) and a.numerator_as_long() == a.denominator_as_long()):
         return b
@@ -207,6 +216,9 @@ class SymReal:
 
     # ---- arithmetic
     def __add__(self, o):
+        _inf = _as_inf(o)
+        if _inf is not None:
+            return _inf  # finite + (+-inf) = +-inf
         if isinstance(o, LogVal):
             return NotImplemented
         if isinstance(o, np.ndarray):
@@ -265,16 +277,35 @@ class SymReal:
     def __sub__(self, o):
         if isinstance(o, (LogVal, np.ndarray)):
             return NotImplemented
+        _inf = _as_inf(o)
+        if _inf is not None:
+            return -_inf
         return self + (-SymReal.lift(o))
 
     def __rsub__(self, o):
+        _inf = _as_inf(o)
+        if _inf is not None:
+            return _inf
         return SymReal.lift(o) + (-self)
 
     def __mul__(self, o):
         if isinstance(o, LogVal):
             return o * self
-        if isinstance(o, np.ndarray):
+        if isinstance(o, np.ndarray) and o.ndim > 0:
             return NotImplemented
+        _inf = _as_inf(o)
+        if _inf is not None:
+            # finite * (+-inf): the sign of the finite factor decides (0 * inf = nan)
+            if self.sign == "+" or (self.c > 0 and self._num_positive()):
+                return _inf
+            c_ = cur()
+            if c_.branch(self.n > 0):
+                return _inf
+            if c_.branch(self.n < 0):
+                return -_inf
+            return float("nan")
+        if isinstance(o, np.ndarray):
+            o = o.item()
         o = SymReal.lift(o)
         sign = None
         if self.sign and o.sign:
